@@ -112,3 +112,12 @@ package dagprocessor
 //@   loop 2 invariant [bounds] 0 <= processed && processed <= eventsLen && ordered
 //@   loop 2 invariant [next] i == processed
 //@   loop 2 invariant len(orderedResults) == eventsLen && forall(j, 0, len(orderedResults), orderedResults[j] != nil ==> orderedResults[j].pos == j && orderedResults[j].e != nil && orderedResults[j].e.Size() >= 0)
+//@
+//@ // Enqueue: creates the two tasks. The facts the tasks rely on about their captured variables (the channel has room
+//@ // for exactly one result per event; eventsLen is the batch length) are proved here, where the closures are made
+//@ // (obligations closure[...].captures); the batch is taken to hold non-nil events of non-negative size.
+//@ func (*Processor).Enqueue
+//@   requires f != nil && f.eventsSemaphore != nil && f.eventsSemaphore.cond != nil && f.checker != nil && f.orderedInserter != nil
+//@   requires len(events) <= 4294967295 && forall(i, 0, len(events), events[i] != nil && events[i].Size() >= 0)
+//@   modifies f.eventsSemaphore.processing, f.eventsSemaphore.maxProcessing
+//@   ensures  true
